@@ -337,6 +337,37 @@ def shapes_of(prog, body, op, site=None, stack=(), depth=0, penv=None):
                             st = (none if rel == "is_none" else some) if (some or none) else "?"
                             out.add(project(("t", (st, y)), o.fields))
                         continue
+                # `let cert = if flag { None } else { Some(ext) }; (flag, cert)`: the second component is chosen by the first
+                if len(ops) == 2 and joint is None and op_place(ops[0]) is not None and op_place(ops[1]) is not None and not op_place(ops[0])["p"] and not op_place(ops[1])["p"] and body.local_ty(op_place(ops[0])["l"]) == "bool":
+                    B = _root_local_of(body, ops[0])
+                    X = _root_local_of(body, ops[1])
+                    defs = [d for d in body.defs.get(X, []) if d.si is not None and d.node["k"] == "assign"] if X is not None and not (1 <= X <= body.n_args) else []
+                    pairs = set()
+                    good = len(defs) >= 2 and len(defs) == len(body.defs.get(X, [])) and B is not None and len(body.defs.get(B, [])) <= 1
+                    for d in defs:
+                        truth = None
+                        for c in conditions(body, d.bb):
+                            if not c.is_discr and _root_local_of(body, {"c": c.place}) == B and not c.place["p"]:
+                                truth = True if c.is_true() else (False if c.is_false() else None)
+                        rv = d.node["rv"]
+                        if truth is None:
+                            good = False
+                            break
+                        if rv["k"] == "aggregate" and rv["agg"].get("path") == "core::option::Option":
+                            ys = {"None"} if rv["agg"].get("variant") == "None" else {("Some", x) for x in shapes_of(prog, body, rv["ops"][0], d, stack, depth + 1, penv)}
+                        elif rv["k"] == "use":
+                            ys = shapes_of(prog, body, rv["ops"][0], d, stack, depth + 1, penv)
+                        else:
+                            good = False
+                            break
+                        # the flag itself may be known (a constant handed down): keep what agrees with it
+                        for y in ys:
+                            if any(x == truth or x not in (True, False) for x in comps[0]):
+                                pairs.add((truth, y))
+                    if good and pairs:
+                        for pr in pairs:
+                            out.add(project(("t", pr), o.fields))
+                        continue
                 combos = [()]
                 if joint is not None:
                     bl, members = joint
